@@ -336,6 +336,26 @@ func checkC04(e *Env) {
 		}
 	})
 
+	// identity is not equality: the mnemonic of one derivation becomes garbage and another
+	// mnemonic of the same byte length takes over its address
+	reusePairs, reuseHits := e.addressReuse(drv, "C04", e.pick(3, 16), 40, func(r *rng.R, k int) (plan.Op, plan.Op, bool) {
+		lang := r.Intn(ref.NLang)
+		w := e.Model.Words(r.Bytes(ref.EntSizes[r.Intn(5)]), lang)
+		sw := append([]string(nil), w...)
+		i, j := r.Intn(len(w)), r.Intn(len(w))
+		sw[i], sw[j] = sw[j], sw[i]
+		a, b := strings.Join(w, "\u3000"), strings.Join(sw, "\u3000")
+		if a == b {
+			return plan.Op{}, plan.Op{}, false
+		}
+		return plan.Op{Fn: "seed", S: hxs(a), P: hxs("\uff50")}, plan.Op{Fn: "seed", S: hxs(b), P: hxs("\uff50")}, true
+	}, func(ops []plan.Op, i int, r *plan.Res, reused bool) {
+		if want, ok := e.RefSeed(ops[i].Str(), ops[i].Pass()); ok && r.Out != hx(want) {
+			e.Violate(&Violation{What: fmt.Sprintf("MnemonicToSeed(%s, %s) = %s, expected %x, when the mnemonic took over the memory of the previous call's mnemonic of the same byte length (address reused: %v)", preview(ops[i].Str()), preview(ops[i].Pass()), r.Out, want, reused),
+				Ops: ops[:i+1], ChildEnv: []string{"GOMAXPROCS=1"}, Expected: map[string]string{"out_hex": hx(want)}, Observed: r, Detail: "the failing call is the last of ops; the preceding ones are its history"})
+		}
+	})
+	stat.Add("seed_pairs_at_a_reused_address(of "+itoa(reusePairs)+")", reuseHits)
 	// the concurrent flavour of this monitor (C12 is the full treatment)
 	concCalls := e.concurrentSmoke(drv, "C04", e.smokePool("C04", "seed"), e.pick(2, 12), e.pick(25, 100), e.smokeSeedRef())
 
